@@ -253,3 +253,14 @@ func TestReqSuite(t *testing.T) {
 	os.WriteFile(filepath.Join(out, "summary.json"), b, 0o644)
 	os.RemoveAll(scratch)
 }
+
+// TestWriteCert writes a self-signed certificate and key into VERIF_OUT (used by the CLI driver).
+func TestWriteCert(t *testing.T) {
+	out := os.Getenv("VERIF_OUT")
+	if out == "" {
+		t.Skip("VERIF_OUT not set")
+	}
+	if _, _, err := writeTestCert(out); err != nil {
+		t.Fatal(err)
+	}
+}
